@@ -96,6 +96,22 @@ PROPS.update({
         exhaustive_models=False, assumptions=COMMON_ASSUME + ['no bounded TLC model enumerates tuple conversions (the conversion has no cross-field logic); TLC is the judge of every recorded conversion']),
 })
 
+SYNTAX_INVS = ['InvFoldMeans', 'InvUnsat', 'InvOrder', 'InvPrintRoundTrip']
+def mc_syntax(mode, name, quick_of, size='small', thorough_size=None, tiers=('quick', 'thorough')):
+    return dict(name=name, module='MC_Syntax', constants=dict(Mode=mode, Size=size, Emit=True, Slice='SEED', Of=quick_of),
+                thorough=dict(Of=1, Size=thorough_size or size), invariants=SYNTAX_INVS, tiers=tiers)
+SYNTAX_RULE = ('cases = range texts rendered from syntax trees: every single comparator over numbers {0,1,2}, x/X/*, absent components, tags {none,-0,-a} '
+               'under 9 operators and 8 spelling knobs; every hyphen pair of those partials; space-joined pairs, `||` pairs and garbage tokens in every position '
+               'over numbers {0,1} (quick tier: a seeded 1/k slice of the first component; thorough: all); + seeded random trees with components up to MAX_SAFE_INTEGER, '
+               '1-4 comparators, 1-3 alternatives, every spelling knob; each text is parsed by the crate and satisfies() is compared with the npm meaning on the probe set '
+               'of the desugared bounds, of the bounds the crate built, and a background grid; distinct = distinct text')
+PROPS.update({
+    'C01': dict(
+        models=[mc_syntax('single', 'MC_Syntax_single', 1), mc_syntax('hyphen', 'MC_Syntax_hyphen', 4),
+                mc_syntax('pairs', 'MC_Syntax_pairs', 8), mc_syntax('alts', 'MC_Syntax_alts', 16)],
+        gens=[], events=['rparse'], rule=SYNTAX_RULE, exhaustive_models=True, assumptions=COMMON_ASSUME, probe_cap=40, chunks=14),
+})
+
 _LEVEL = ('TLC checks the design of the operation (spec/Interval.tla) against the declarative statement, pointwise on a complete '
           'probe set, for every operand pair of the bounded universe; each enumerated pair and thousands of seeded large/irregular '
           'pairs are then executed against the real crate and every recorded call is judged by TLC against the Api postcondition. '
